@@ -5,9 +5,15 @@ const struct flavor_ops *const flavors[FLV_N] = { &flavor_memb, &flavor_mb, &fla
 
 void scen_gp(void);
 void scen_gp_live(void);
+void scen_callrcu(void);
+void scen_barrier(void);
+void scen_poll(void);
 
 const struct usim_scenario usim_scenarios[] = {
 	{ "gp", "C01", scen_gp },
 	{ "gp_live", "C02", scen_gp_live },
+	{ "callrcu", "C03", scen_callrcu },
+	{ "barrier", "C04", scen_barrier },
+	{ "poll", "C14", scen_poll },
 };
 const int usim_nscenarios = sizeof(usim_scenarios) / sizeof(usim_scenarios[0]);
